@@ -97,6 +97,29 @@ theorem collectLines_from (text : Nat → String) (isL : String → Bool) (R : L
   | .comp i _ inner, m, hm => by
       simp only [collectLines]
       exact collectLinesList_from text isL R inner _ (hm.step' i)
+  | .starred _ e, m, hm => by
+      simp only [collectLines]
+      exact collectLines_from text isL R e _ hm
+  | .coll _ _ es, m, hm => by
+      simp only [collectLines]
+      exact collectLinesList_from text isL R es _ hm
+  | .dict _ items, m, hm => by
+      simp only [collectLines]
+      exact collectLinesVals_from text isL R items _ (collectLinesKeys_from text isL R items _ hm)
+  | .slice _ lo hi step, m, hm => by
+      simp only [collectLines]
+      exact collectLinesOpt_from text isL R step _ (collectLinesOpt_from text isL R hi _
+        (collectLinesOpt_from text isL R lo _ hm))
+  | .callkw i f args kws, m, hm => by
+      simp only [collectLines]
+      exact collectLinesKws_from text isL R kws _ (collectLinesList_from text isL R args _
+        (collectLines_from text isL R f _ (hm.step' i)))
+  | .fvalue _ e _ spec, m, hm => by
+      simp only [collectLines]
+      exact collectLinesOpt_from text isL R spec _ (collectLines_from text isL R e _ hm)
+  | .fstring i _, m, hm => by
+      simp only [collectLines]
+      exact hm.step i representable
 theorem collectLinesList_from (text : Nat → String) (isL : String → Bool) (R : Log) :
     ∀ (es : List Expr) (m : List (String × Val)), LinesFrom text R m →
       LinesFrom text R (collectLinesList text isL R m es)
@@ -111,6 +134,53 @@ theorem collectLinesCmp_from (text : Nat → String) (isL : String → Bool) (R 
   | (_, e) :: rest, m, hm => by
       simp only [collectLinesCmp]
       exact collectLinesCmp_from text isL R rest _ (collectLines_from text isL R e _ hm)
+theorem collectLinesKeys_from (text : Nat → String) (isL : String → Bool) (R : Log) :
+    ∀ (es : List (Option Expr × Expr)) (m : List (String × Val)), LinesFrom text R m →
+      LinesFrom text R (collectLinesKeys text isL R m es)
+  | [], m, hm => by simpa only [collectLinesKeys] using hm
+  | (none, _) :: rest, m, hm => by
+      simp only [collectLinesKeys]
+      exact collectLinesKeys_from text isL R rest _ hm
+  | (some k, _) :: rest, m, hm => by
+      simp only [collectLinesKeys]
+      exact collectLinesKeys_from text isL R rest _ (collectLines_from text isL R k _ hm)
+theorem collectLinesVals_from (text : Nat → String) (isL : String → Bool) (R : Log) :
+    ∀ (es : List (Option Expr × Expr)) (m : List (String × Val)), LinesFrom text R m →
+      LinesFrom text R (collectLinesVals text isL R m es)
+  | [], m, hm => by simpa only [collectLinesVals] using hm
+  | (_, e) :: rest, m, hm => by
+      simp only [collectLinesVals]
+      exact collectLinesVals_from text isL R rest _ (collectLines_from text isL R e _ hm)
+theorem collectLinesKws_from (text : Nat → String) (isL : String → Bool) (R : Log) :
+    ∀ (es : List (Option String × Expr)) (m : List (String × Val)), LinesFrom text R m →
+      LinesFrom text R (collectLinesKws text isL R m es)
+  | [], m, hm => by simpa only [collectLinesKws] using hm
+  | (_, e) :: rest, m, hm => by
+      simp only [collectLinesKws]
+      exact collectLinesKws_from text isL R rest _ (collectLines_from text isL R e _ hm)
+theorem collectLinesOpt_from (text : Nat → String) (isL : String → Bool) (R : Log) :
+    ∀ (o : Option Expr) (m : List (String × Val)), LinesFrom text R m →
+      LinesFrom text R (collectLinesOpt text isL R m o)
+  | none, m, hm => by simpa only [collectLinesOpt] using hm
+  | some e, m, hm => by
+      simp only [collectLinesOpt]
+      exact collectLines_from text isL R e _ hm
 end
+
+/-- an f-string contributes at most the one line of the whole string -/
+theorem collectLines_fstring (text : Nat → String) (isL : String → Bool) (R : Log) (i : Nat) (parts : List Expr)
+    (k : String) (x : Val) (h : (k, x) ∈ collectLines text isL R [] (.fstring i parts)) :
+    k = text i ∧ recorded R i = some x := by
+  simp only [collectLines] at h
+  cases hr : recorded R i with
+  | none => simp [hr] at h
+  | some v =>
+    simp only [hr] at h
+    split at h
+    · simp [putLine] at h
+      obtain ⟨rfl, rfl⟩ := h
+      exact ⟨rfl, rfl⟩
+    · cases h
+
 
 end Icontract.Ex
